@@ -69,10 +69,22 @@ func SingleBucket(name string, fs afero.Fs, metaFs afero.Fs, opts ...SingleOptio
 		return nil, err
 	}
 
+	// The modification time resolution is measured with a scratch file. It is
+	// kept inside the reserved directory: in the root of the Fs, which is the
+	// bucket, a scratch file left behind by a killed process would be listed as
+	// an object, and then disappear under the next listing, which re-measures
+	// and removes it.
+	modTimeCalc := func() (time.Duration, error) {
+		if err := fs.MkdirAll(singleUploadsDir, 0777); err != nil {
+			return 0, err
+		}
+		return modTimeResolution(afero.NewBasePathFs(fs, singleUploadsDir))
+	}
+
 	b := &SingleBucketBackend{
 		name:      name,
 		fs:        fs,
-		metaStore: newMetaStore(metaFs, modTimeFsCalc(fs)),
+		metaStore: newMetaStore(metaFs, modTimeCalc),
 	}
 	for _, opt := range opts {
 		if err := opt(b); err != nil {
